@@ -44,11 +44,6 @@ theorem kind_of_succeeds (s : Step) (h : succeeds s = true) : (encodeStep {} s).
 
 /-! ### an unfinished encode delivers a prefix of the line -/
 
-theorem escape_append (a b : List Char) : escape (a ++ b) = escape a ++ escape b := by
-  induction a with
-  | nil => rfl
-  | cons c cs ih => simp [escape, ih]
-
 theorem escape_take_prefix (s : List Char) (n : Nat) : escape (s.take n) <+: escape s := by
   have h := escape_append (s.take n) (s.drop n)
   rw [List.take_append_drop] at h
@@ -69,7 +64,7 @@ theorem joinMembers_three_prefix (m1 m2 pre full : List Char) (rest : List (List
 theorem displayCut_prefix (env : Env) (r : Record) (n : Nat) : displayCut env r n <+: jsonLine env r := by
   have hm : ∃ rest, messageMembers env r
       = member kTime (jstr env.time) :: member kLevel (jstr r.level.name) :: member kMessage (jstr r.message) :: rest :=
-    ⟨_, by simp only [messageMembers, List.cons_append, List.nil_append, List.append_assoc]; rfl⟩
+    ⟨_, by simp only [messageMembers, jstrPieces_eq, Record.message, List.cons_append, List.nil_append, List.append_assoc]; rfl⟩
   obtain ⟨rest, hrest⟩ := hm
   have hpre : (jstr kMessage ++ ':' :: '"' :: escape (r.message.take n)) <+: member kMessage (jstr r.message) := by
     unfold member
